@@ -106,7 +106,7 @@ def _alarm(signum, frame):
 
 # ------------------------------------------------------------------------------------------------ tiers
 CONFIGS = {
-    "q":    {"L": 6, "D": 3, "colors": 3, "ctor_parts": 3, "nshards": 96, "nprefix": 16},
+    "q":    {"L": 5, "D": 3, "colors": 3, "ctor_parts": 3, "nshards": 96, "nprefix": 16},
     "deep": {"L": 5, "D": 4, "colors": 3, "ctor_parts": 3, "nshards": 320, "nprefix": 16},
     "wide": {"L": 7, "D": 3, "colors": 4, "ctor_parts": 3, "nshards": 160, "nprefix": 32},
 }
